@@ -544,7 +544,7 @@ def check_config(ctx, lean, oracle, name, c, op):
         ctx.disagree(f"{name}.eval", case, repr(e)[:200], "evaluates", oracle=oracle, known_id=classify(name, c))
         return
     declared = (opgrid.size_of(op.output_shape), opgrid.size_of(op.input_shape))
-    if not dtype_check(ctx, oracle, name, c, op, case):
+    if not dtype_check(ctx, oracle, name, c, op, case, lean):
         return
     D_np = linops_ref.ref_matrix(name, c)
     trivial = D_np.shape[0] == D_np.shape[1] and D_np.size > 0 and np.array_equal(D_np, np.eye(D_np.shape[0]))
@@ -617,7 +617,7 @@ def check_config(ctx, lean, oracle, name, c, op):
             ctx.disagree("linops.Crop.adjoint_of_pad", case, _summ(R), _summ(P.T), oracle=oracle)
 
 
-def dtype_check(ctx, oracle, name, c, op, case):
+def dtype_check(ctx, oracle, name, c, op, case, lean=None):
     """dtype of the returned array = declared output dtype = documented promoted dtype (convolutions:
     result_type(filter dtype, input dtype)); only the convolution classes are decided here (the rest is C12's)"""
     import opgrid
@@ -647,6 +647,23 @@ def dtype_check(ctx, oracle, name, c, op, case):
             doc = np.result_type(hdt, np.dtype(c["dtype"]))
         else:
             doc = decl
+        # constructor metadata of the Lean model (circInit / convInit): declared shape, dtype, `real` flag
+        if c.get("route", "init") == "init":
+            hdn = str(np.dtype(np.complex128 if (c.get("h_is_dft") or c["h"]["im"] is not None) else (np.float32 if c["dtype"] == "float32" else np.float64)))
+            try:
+                if name == "CircularConvolve":
+                    mi = lean.m.call("circinit", hshape=c["h"]["shape"], shape=c["shape"], ndims=c["ndims"], h_is_dft=bool(c["h_is_dft"]),
+                                     has_center=c["h_center"] is not None, hdtype=hdn, dtype=c["dtype"])
+                    impl = {"output_shape": [int(v) for v in op.output_shape], "output_dtype": str(np.dtype(op.output_dtype)), "real": bool(op.real)}
+                else:
+                    mi = {"output_dtype": lean.m.call("convinit", hndim=len(c["h"]["shape"]), ndim=len(c["shape"]), mode=c["mode"], hdtype=hdn, dtype=c["dtype"])}
+                    impl = {"output_dtype": str(np.dtype(op.output_dtype))}
+            except ModelErr as e:
+                mi, impl = e.kind, "constructs"
+            ctx.count("conv-constructor-metadata")
+            if mi != impl:
+                ctx.disagree(f"linops.{name}.init", case, impl, mi, oracle=oracle, note="declared output shape / dtype / real flag differ from the model of the constructor")
+                return False
         ctx.count(f"dtype-checked:{doc}")
         if not (got == decl == doc):
             ctx.disagree(f"linops.{name}.dtype", case, {"returned": str(got), "declared": str(decl)}, {"documented": str(doc)}, oracle=oracle,
@@ -1016,6 +1033,40 @@ def malformed(ctx, lean):
         ctx.count("malformed:fd-circular-with-extension")
         if impl != mdl:
             ctx.disagree("linops.fd.reject", {"class": "SingleAxisFiniteDifference", "config": kw}, impl, mdl)
+    import jax.numpy as jnp
+
+    def _accepts(f):
+        try:
+            f()
+            return True
+        except Exception:  # noqa: BLE001
+            return False
+
+    conv_bad = [
+        ("circinit", dict(hshape=[3], shape=[4], ndims=None, h_is_dft=True, has_center=True, hdtype="complex128", dtype="float64"),
+         lambda: linop.CircularConvolve(jnp.ones(4, dtype=np.complex128), (4,), input_dtype=np.float64, h_is_dft=True, h_center=[0])),
+        ("circinit", dict(hshape=[2, 3], shape=[3, 4], ndims=1, h_is_dft=False, has_center=False, hdtype="float64", dtype="float64"),
+         lambda: linop.CircularConvolve(jnp.ones((2, 3)), (3, 4), ndims=1, input_dtype=np.float64)),
+        ("circinit", dict(hshape=[1, 3], shape=[3, 4], ndims=1, h_is_dft=False, has_center=True, hdtype="float64", dtype="float64"),
+         lambda: linop.CircularConvolve(jnp.ones((1, 3)), (3, 4), ndims=1, input_dtype=np.float64, h_center=[1])),
+        ("convinit", dict(hndim=1, ndim=2, mode="full", hdtype="float64", dtype="float64"),
+         lambda: linop.Convolve(jnp.ones(3), (3, 4), input_dtype=np.float64)),
+        ("convinit", dict(hndim=2, ndim=2, mode="circular", hdtype="float64", dtype="float64"),
+         lambda: linop.Convolve(jnp.ones((2, 2)), (3, 4), input_dtype=np.float64, mode="circular")),
+        ("convinit", dict(hndim=2, ndim=2, mode="same", hdtype="float64", dtype="float64"),
+         lambda: linop.ConvolveByX(jnp.ones((2, 2)), (3, 4), input_dtype=np.float64, mode="same")),
+    ]
+    for opn, kw, build in conv_bad:
+        impl = _accepts(build)
+        try:
+            lean.m.call(opn, **kw)
+            mdl = True
+        except ModelErr:
+            mdl = False
+        ctx.case({"malformed": {opn: kw}}, None)
+        ctx.count("malformed:conv-constructor")
+        if impl != mdl:
+            ctx.disagree("linops.conv.reject", {"class": "CircularConvolve" if opn == "circinit" else "Convolve", "config": kw}, impl, mdl)
     from scico.numpy.util import normalize_axes
 
     for axes in [(-5,), (-3,), (0, -2), (0, 0), (2,), (), (0, -1), (-2, -1), None, (1,)]:
